@@ -72,6 +72,13 @@ def build_module(ctx, case, ifaces, template=None, extra_cfg=None, extra_files=N
     srcpath = MOD + "/" + sdir
     tdn = case.get("td_by_name") or {}
     cfg["packages"] = {srcpath: {"interfaces": {i["name"]: ({"config": {"template-data": tdn[i["name"]]}} if tdn.get(i["name"]) else per_iface) for i in ifaces}}}
+    if case.get("td_pkg_cfg"):     # arbitrary settings at package level
+        cfg["packages"][srcpath].setdefault("config", {}).update(case["td_pkg_cfg"])
+    if case.get("iface_cfg"):      # arbitrary settings on every interface
+        for nm, ent in list(cfg["packages"][srcpath]["interfaces"].items()):
+            ent = dict(ent or {})
+            ent["config"] = dict(ent.get("config") or {}, **case["iface_cfg"])
+            cfg["packages"][srcpath]["interfaces"][nm] = ent
     if case.get("td_pkg"):
         cfg["packages"][srcpath]["config"] = {"template-data": dict(case["td_pkg"])}
     if case.get("onefile"):
@@ -101,7 +108,14 @@ def precheck(root):
 def run_generation(ctx, root, info, case, ifaces):
     """Run mockery for the whole package; on failure re-run per interface to attribute.
     Returns (generated: set of iface names whose file was produced, failures: {iface name: Result})"""
-    r = core.run_mockery(ctx, root, [], timeout=600, cpu_limit=300)
+    cwd, env_extra = root, None
+    if case.get("via_symlink"):
+        # the module is entered through a symbolic link (~/src -> /data/src): the shell's logical $PWD, which `go list` honours, is the link
+        cwd = root.rstrip("/") + "-link"
+        if not os.path.islink(cwd):
+            os.symlink(root, cwd)
+        env_extra = {"PWD": cwd}
+    r = core.run_mockery(ctx, cwd, [], env_extra=env_extra, timeout=600, cpu_limit=300)
     if r.exit == 0 and not r.panicked:
         return set(i["name"] for i in ifaces), {}, r
     # attribute: each interface alone (outputs of a partially successful run are overwritten: force-file-write)
@@ -117,7 +131,7 @@ def run_generation(ctx, root, info, case, ifaces):
         p = os.path.join(root, out_file(info, i, case["placement"]))
         if os.path.exists(p):
             os.unlink(p)
-        ri = core.run_mockery(ctx, root, [], timeout=600, cpu_limit=300)
+        ri = core.run_mockery(ctx, cwd, [], env_extra=env_extra, timeout=600, cpu_limit=300)
         if ri.exit == 0 and not ri.panicked:
             ok.add(i["name"])
         else:
